@@ -78,8 +78,22 @@ def compare_text(data, toks, fmt):
         return 'trailing bytes after the model text: %r' % data[pos:pos + 20]
     return None
 
+def has_ub(x):
+    if isinstance(x, list):
+        if len(x) >= 1 and x[0] == 'ub': return True
+        return any(has_ub(e) for e in x)
+    return False
+
 def compare(cx, mo, fmt, path=''):
     """returns a list of human-readable differences (empty = agree)"""
+    if path == '' and isinstance(cx, list) and cx and cx[0] in ('exception', 'crash') and has_ub(mo):
+        # the model says the C++ has undefined behaviour / throws on this input (e.g. adjustment data that overflowed to
+        # infinity make the refinement read bin -1); an exception or a crash of the real code is one admissible outcome
+        return []
+    if path == '' and isinstance(cx, list) and cx and cx[0] in ('exception', 'crash') and isinstance(mo, list) and mo and mo[-1] == ['reload', 'stream_failed']:
+        # a text with non-finite numbers cannot be loaded (outside the scope of the round-trip property): the real reader may fail
+        # with the stream's fail bit or, after it read garbage counts, with an exception
+        return []
     if isinstance(cx, list) and isinstance(mo, list) and len(cx) == 2 and len(mo) == 2 and cx[0] == mo[0] and cx[0] in ('text', 'wrote') \
        and isinstance(cx[1], bytes):
         if isinstance(mo[1], list) and mo[1] and mo[1][0] == 'ok':
